@@ -448,12 +448,20 @@ def r4(ctx):
     ctx.ob(rd.qual, "phase-input-tables-only-looked-up", not bad, rd.loc(bad[0].stmt) if bad else rd.loc(), "read() never modifies the tables of the phase-input VCFs (reached through %s): every sample of the run sees every chromosome's phase sets" % sorted(shared - {"self"}) if not bad else "read() modifies the shared phase-input tables: `%s` -- a later sample of the same chromosome no longer finds the input phase sets" % bad[0].text()[:80])
 
 
+def r5(ctx):
+    # the phase sets of the input VCF become pseudo reads that pass read selection: the cap each sample gets is C07.R5's business
+    from rules import c07
+
+    c07.r5(ctx)
+
+
 RULES = [
     ("C09.R1", "HP and PS writer/reader grammar agreement", r1),
     ("C09.R2", "kill set: every decoder carrier cleared for every target call, both tags", r2),
     ("C09.R3", "GT normalisation (sorted) precedes the setter for both tags", r3),
     ("C09.R4", "phased blocks -> complementary pseudo reads", r4),
+    ("C09.R5", "pseudo reads pass read selection under the per-sample share of the cap (C07.R5)", r5),
 ]
 # instance floors: about 60% of the instances confirmed by hand on the reference tree -- a rule that suddenly matches far fewer
 # sites fails the run (exit 2); a clean-up that merges two sites into one does not
-FLOORS = {"C09.R1": 9, "C09.R2": 4, "C09.R3": 1, "C09.R4": 4}
+FLOORS = {"C09.R1": 9, "C09.R2": 4, "C09.R3": 1, "C09.R4": 4, "C09.R5": 4}
